@@ -75,7 +75,7 @@ Qed.
 (* after at least one pointer the returned offset is the saved one *)
 Lemma dec_unpack_saved msg p ls h : dec msg p ls h ->
   forall fuel ptr newoff name,
-    0 < ptr -> h + ptr <= 10 ->
+    0 < ptr -> h + ptr <= 127 ->
     length name + length (raw ls) + 1 <= 255 ->
     length ls + h < fuel ->
     unpack_name_go fuel msg p ptr newoff name = Ok (name ++ raw ls, newoff).
@@ -110,14 +110,14 @@ Proof.
     rewrite Hi, Hc. cbn [N.eqb Pos.eqb].
     destruct (length msg <=? S p) eqn:E1; [apply Nat.leb_le in E1; lia|].
     rewrite Hi1.
-    destruct (10 <? S ptr) eqn:E2; [apply Nat.ltb_lt in E2; lia|].
+    destruct (127 <? S ptr) eqn:E2; [apply Nat.ltb_lt in E2; lia|].
     destruct ptr; [lia|]. cbn [Nat.eqb].
     apply IH; lia.
 Qed.
 
 Lemma dece_unpack msg p ls h e : dece msg p ls h e ->
   forall fuel newoff name,
-    h <= 10 ->
+    h <= 127 ->
     length name + length (raw ls) + 1 <= 255 ->
     length ls + h < fuel ->
     unpack_name_go fuel msg p 0 newoff name = Ok (name ++ raw ls, e).
@@ -153,7 +153,7 @@ Proof.
     apply (dec_unpack_saved _ _ _ _ Hd); lia.
 Qed.
 
-Lemma dece_unpack_name msg p ls h e : dece msg p ls h e -> h <= 10 -> wf_labels ls ->
+Lemma dece_unpack_name msg p ls h e : dece msg p ls h e -> h <= 127 -> wf_labels ls ->
   unpack_name msg p = Ok (raw ls, e).
 Proof.
   intros Hd Hh [Hf Hl]. unfold unpack_name.
@@ -351,7 +351,7 @@ Definition cc_name (n : list N) : Prop := forall pre t, tbl_ok pre t ->
     (forall post, tbl_ok (pre ++ b ++ post) t') /\
     (forall post, unpack_name (pre ++ b ++ post) (length pre) = Ok (n, length pre + length b)).
 
-Lemma cc_name_ok n : wf_name n -> name_depth n <= 10 -> cc_name n.
+Lemma cc_name_ok n : wf_name n -> name_depth n <= 127 -> cc_name n.
 Proof.
   intros Hw Hd pre t Ht. destruct (wf_name_depth n Hw) as (ls & -> & Hwl & Hdl). rewrite Hdl in Hd.
   rewrite (pack_name_cname ls (length pre) t Hwl). do 2 eexists. split; [reflexivity|].
@@ -369,7 +369,7 @@ Proof. exists pre, post. split; reflexivity. Qed.
 Lemma sub_at2 a b x post : sub (a ++ (b ++ x ++ post)) (length a + length b) x.
 Proof. exists (a ++ b), post. rewrite app_length, <- app_assoc. split; reflexivity. Qed.
 
-Definition q_depth_ok (q : question) : Prop := name_depth (q_name q) <= 10.
+Definition q_depth_ok (q : question) : Prop := name_depth (q_name q) <= 127.
 
 Definition cc_question (q : question) : Prop := forall pre t, tbl_ok pre t ->
   exists b t', pack_question true q (length pre) t = Ok (b, t') /\
@@ -396,10 +396,10 @@ Qed.
 (* ---------- RDATA ---------- *)
 Definition rdata_depth_ok (d : rdata) : Prop :=
   match d with
-  | RName n => name_depth n <= 10
-  | RSOA ns mb _ _ _ _ _ => name_depth ns <= 10 /\ name_depth mb <= 10
-  | RMX _ mx => name_depth mx <= 10
-  | RSRV _ _ _ tg => name_depth tg <= 10
+  | RName n => name_depth n <= 127
+  | RSOA ns mb _ _ _ _ _ => name_depth ns <= 127 /\ name_depth mb <= 127
+  | RMX _ mx => name_depth mx <= 127
+  | RSRV _ _ _ tg => name_depth tg <= 127
   | _ => True
   end.
 
@@ -511,7 +511,7 @@ Proof.
 Qed.
 
 (* ---------- resource records ---------- *)
-Definition rr_depth_ok (r : rr) : Prop := name_depth (r_name r) <= 10 /\ rdata_depth_ok (r_data r).
+Definition rr_depth_ok (r : rr) : Prop := name_depth (r_name r) <= 127 /\ rdata_depth_ok (r_data r).
 
 Definition cc_rr (r : rr) : Prop := forall pre t, tbl_ok pre t ->
   exists b t' r', pack_rr true r (length pre) t = Ok (b, t') /\
@@ -967,3 +967,59 @@ Proof.
       split; [exact Vq|]. split; [exact Va|]. split; [exact Vn|]. split; [exact Vr|].
       unfold h', omitted. rewrite E3, E6, E9, E12. reflexivity.
 Qed.
+
+(* ---------- the depth hypotheses are free: a well-formed name has at most 127 labels ---------- *)
+(* (after the fix of finding K1 the decoder follows up to 127 pointers, one per label of the longest legal name) *)
+Lemma raw_len_ge2 ls : Forall wf_label ls -> 2 * length ls <= length (raw ls).
+Proof.
+  induction 1 as [|l ls [Hl _] _ IH]; cbn [raw length]; [lia|]. rewrite app_length. lia.
+Qed.
+
+Lemma wf_name_depth_le n : wf_name n -> name_depth n <= 127.
+Proof.
+  intros Hw. destruct (wf_name_depth n Hw) as (ls & _ & (Hf & Hl) & ->).
+  pose proof (raw_len_ge2 ls Hf). lia.
+Qed.
+
+Lemma wf_q_depth q : wf_question q -> q_depth_ok q.
+Proof. intros (Hn & _). apply wf_name_depth_le, Hn. Qed.
+
+Lemma wf_rdata_depth typ d : wf_rdata typ d -> rdata_depth_ok d.
+Proof.
+  unfold wf_rdata. destruct (kind_of_type typ), d; try contradiction; cbn [rdata_depth_ok]; try exact (fun _ => I).
+  - apply wf_name_depth_le.
+  - intros (H1 & H2 & _). split; apply wf_name_depth_le; assumption.
+  - intros (_ & H). apply wf_name_depth_le, H.
+  - intros (_ & _ & _ & H). apply wf_name_depth_le, H.
+Qed.
+
+Lemma wf_rr_depth r : wf_rr r -> rr_depth_ok r.
+Proof.
+  intros (Hn & _ & _ & _ & Hd). split; [apply wf_name_depth_le, Hn|]. eapply wf_rdata_depth, Hd.
+Qed.
+
+Lemma wf_msg_depth m : wf_msg m -> msg_depth_ok m.
+Proof.
+  intros (_ & Fq & Fa & Fn & Fr & _). unfold msg_depth_ok.
+  split; [exact (Forall_impl _ wf_q_depth Fq)|].
+  split; [exact (Forall_impl _ wf_rr_depth Fa)|].
+  split; [exact (Forall_impl _ wf_rr_depth Fn)|exact (Forall_impl _ wf_rr_depth Fr)].
+Qed.
+
+(* C02, compression ON, unconditional: EVERY well-formed message packs (into a buffer of Msg.Len octets) to wire data
+   that decodes, whatever follows it, to a message with the same view. *)
+Theorem compressed_roundtrip_all m post : wf_msg m ->
+  exists out m', pack_msg (msg_len m) true 0 m = Ok out /\ unpack_msg (out ++ post) = Ok m' /\ view m' = view m /\
+                 length out <= msg_len m.
+Proof. intros Hw. apply compressed_roundtrip; [exact Hw|apply wf_msg_depth, Hw]. Qed.
+
+Theorem compressed_truncated_all size m post : wf_msg m -> 0 < size ->
+  exists out m' kq ka kn kr,
+    pack_msg (msg_len m) true size m = Ok out /\ unpack_msg (out ++ post) = Ok m' /\
+    sublist kq (m_qs m) /\ sublist ka (m_an m) /\ sublist kn (m_ns m) /\ sublist kr (snd (pop_opt (m_ar m))) /\
+    m_qs m' = kq /\ map rr_view (m_an m') = map rr_view ka /\ map rr_view (m_ns m') = map rr_view kn /\
+    map rr_view (m_ar m') = map rr_view (kr ++ opt_list m) /\
+    m_hdr m' = set_tc (m_hdr m) (h_tc (m_hdr m) ||
+                 negb ((length kq =? length (m_qs m)) && (length ka =? length (m_an m)) &&
+                       (length kn =? length (m_ns m)) && (length kr =? length (snd (pop_opt (m_ar m)))))).
+Proof. intros Hw Hs. apply compressed_truncated; [exact Hw|apply wf_msg_depth, Hw|exact Hs]. Qed.
